@@ -121,6 +121,14 @@ def build(job):
         p2 = t.prod("g1", oname, lambda: opt.multiply(opt.G1, k), n=k)
         ps = t.prod("add", oname, lambda: opt.add(t.R(p1), t.R(p2)), a=p1, b=p2)
         gts.append(t.prod("pair", oname, lambda: opt.pairing(t.R(q1), t.R(ps)), a=q1, b=ps, gt=True))
+        # the same point in two projective representatives, added (doubling reached through add), then paired
+        p5a = t.prod("g1", oname, lambda: opt.add(opt.multiply(opt.G1, 2), opt.multiply(opt.G1, 3)), n=5)
+        pd = t.prod("add", oname, lambda: opt.add(t.R(p1), t.R(p5a)), a=p1, b=p5a)
+        gts.append(t.prod("pair", oname, lambda: opt.pairing(t.R(q1), t.R(pd)), a=q1, b=pd, gt=True))
+        lamq = opt.FQ2([rng.randrange(p), rng.randrange(1, p)])
+        q1s = t.prod("g2", oname, lambda: tuple(c * lamq for c in opt.G2), n=1)
+        qd = t.prod("add", oname, lambda: opt.add(t.R(q1), t.R(q1s)), a=q1, b=q1s)
+        gts.append(t.prod("pair", oname, lambda: opt.pairing(t.R(qd), t.R(p1)), a=qd, b=p1, gt=True))
         qa = t.prod("g2", oname, lambda: opt.multiply(opt.G2, 7), n=7)
         qs = t.prod("add", oname, lambda: opt.add(t.R(qa), t.R(q1)), a=qa, b=q1)
         gts.append(t.prod("pair", oname, lambda: opt.pairing(t.R(qs), t.R(p1)), a=qs, b=p1, gt=True))
